@@ -7,9 +7,7 @@ Local Open Scope list_scope.
 
 Theorem C18_reached :
   forall (notes : list (string * option string * list dblock)) (ops : list op) (s : gstate),
-         plain_notes notes ->
          distinct_keys notes ->
-         plain_ops ops ->
          reached notes ops s ->
          bwd (arena_of s) /\
          wf_arenab (arena_of s) = true /\
@@ -36,9 +34,7 @@ Theorem C18_reached :
 Proof. exact Reachable.reached_C18. Qed.
 Check C18_reached :
   forall (notes : list (string * option string * list dblock)) (ops : list op) (s : gstate),
-         plain_notes notes ->
          distinct_keys notes ->
-         plain_ops ops ->
          reached notes ops s ->
          bwd (arena_of s) /\
          wf_arenab (arena_of s) = true /\
